@@ -130,9 +130,14 @@ class Impl:
                     return "ok %d" % (len(self.models) - 1)
                 if kind == "edit":
                     m = self.models[int(op[1])] if int(op[1]) < len(self.models) else None
-                    if m is None or m._impl not in mx.core.mxsys.models.values():
-                        return "skip"
-                    self._edit(m, int(op[2]))
+                    if m is None:
+                        return "skip"       # an identity that was never handed out (failed read): no handle
+                    # also through the handle of a CLOSED model: it is not registered any more, but its objects
+                    # keep working; the oracle then looks at the registry and at every open model
+                    try:
+                        self._edit(m, int(op[2]))
+                    except Exception:
+                        pass                # an edit that modelx refuses is an edit that changes nothing
                     return "skip"
         except ValueError:
             return "err invalidName"
@@ -200,7 +205,14 @@ def run_history(ops, out, hist_id, stats):
             before = {i: m for i, m in enumerate(impl.models)
                       if m is not None and m._impl in mx.core.mxsys.models.values()}
             desc_before = {i: impl.describe(m) for i, m in before.items()}
+            reg_before = [(key, id(im)) for key, im in mx.core.mxsys.models.items()]
             res = impl.apply(op)
+            if op[0] == "edit":
+                if reg_before != [(key, id(im)) for key, im in mx.core.mxsys.models.items()]:
+                    out.fail("an edit of a model changed the registry", ops[:k + 1])
+                if int(op[1]) < len(impl.models) and impl.models[int(op[1])] is not None \
+                        and int(op[1]) not in before:
+                    stats["edits_through_closed_model"] = stats.get("edits_through_closed_model", 0) + 1
             stats[op[0]] = stats.get(op[0], 0) + 1
             if res.startswith("err"):
                 stats["rejected:" + res[4:]] = stats.get("rejected:" + res[4:], 0) + 1
